@@ -170,9 +170,13 @@ class Sim:
             return self.rng.random() < self.pre_prob
         return False
 
-    def pct_arm(self):
-        """Count the PCT change points from here (no-op for other policies)."""
+    def pct_arm(self, horizon=None):
+        """Count the PCT change points from here (no-op for other policies).  With ``horizon`` the offsets are
+        drawn anew within that many line events (a workload that knows the overlap it is after is short)."""
         if self.pct_points is not None and self.forced_pre is None:
+            if horizon is not None:
+                k = max(1, len(self.pct_offsets))
+                self.pct_offsets = sorted(set(self.rng.randrange(max(1, int(horizon))) for _ in range(k)))
             self.pct_points = {self.line_events + off for off in self.pct_offsets}
 
     def decisions(self):
@@ -399,6 +403,17 @@ class Sim:
         if duration is None or duration <= 0:
             self.yield_point()
             return
+        slack = (self.sched or {}).get("sleep_slack", 0)
+        if slack and self.current is not None and not self.current.is_driver:
+            # sleep() guarantees "at least": with sched["sleep_slack"] a sleeping thread may wake together with
+            # something else that happens within the slack after its due time (a recorded choice) - which is
+            # how two periodic activities with unrelated phases get to run at the same instant
+            due = round(self.now + duration, 9)
+            cands = sorted({when for when, _seq, token, _fn in self.heap if not token[0] and due < when <= due + slack})
+            pick = self.choose("sleep_slack", len(cands) + 1)
+            if pick:
+                self.count("sleeps_coalesced")
+                duration = cands[pick - 1] - self.now
         self.block(("sleep",), duration)
 
     def wait_idle(self):
@@ -493,6 +508,10 @@ def _patched_start(self):
     sim = CURRENT
     if sim is None or sim.killed:
         return _ORIG_START(self)
+    if sim.rec_for(self) is not None or self._started.is_set():
+        # a second start() of the same Thread object: the real thing raises RuntimeError and so must this
+        # (registering a phantom runnable thread here would hand the baton to nobody)
+        raise RuntimeError("threads can only be started once")
     rec = sim.register(self, _role_of(self))
     run = self.run
 
